@@ -224,7 +224,7 @@ impl GraphInline {
                 if *link_type == LinkType::WikiLink {
                     return format!("[[{}]]", url);
                 }
-                if !self.is_ref() && text.eq_ignore_ascii_case(url) {
+                if !self.is_ref() && text == *url {
                     format!("<{}>", url)
                 } else if self.is_ref() {
                     format!(
